@@ -2,5 +2,7 @@ SPECIFICATION Spec
 CONSTANTS
   RepGE = TRUE
   RootGuard = TRUE
+  MaxPly = 100
+  PlyGuard = TRUE
 INVARIANT AllOk
 CHECK_DEADLOCK FALSE
